@@ -185,6 +185,19 @@ def run(tier, v):
     for k in inputs:
         rng.shuffle(inputs[k])
     rng.shuffle(conns)
+    # tracked connections whose segments carry ARBITRARY sequence numbers (retransmissions, wild values spread over the whole 32-bit
+    # space, values around the wrap), none completing a message: whatever is buffered and however it is ordered, no call may fail
+    for ci, (dport, payload) in enumerate(((80, b"GET /s HTTP/1.1\r\nX-Pad: "), (80, b"HTTP/1.1 200 OK\r\nX-Pad: "), (443, bytes([0x16, 3, 1, 0x40, 0, 1, 0, 0x3f, 0xfc])))):
+        for spread in (1, 3, 7):
+            ca = (10, 3, 7, 1 + ci * 3 + spread % 3)
+            cp = 42000 + ci * 10 + spread
+            seqs = [rng.choice([0, 0x55555555, 0xAAAAAAAA, 0xFFFFFF00, 0x7FFFFFF0, 0x80000010][:2 * spread]) + rng.randrange(0, 4000) for _ in range(72)]
+            c = [c10.frame(ca, (10, 3, 0, 2), cp, dport, 100, 0, 0x02, opts=b"\x02\x04\x05\xb4", ipid=1)]
+            for k, sq in enumerate(seqs):
+                src, dst, sp, dp = (ca, (10, 3, 0, 2), cp, dport) if (ci != 1) else ((10, 3, 0, 2), ca, dport, cp)
+                c.append(c10.frame(src, dst, sp, dp, sq, 1, 0x18, (payload if k == 0 else b"") + bytes([97 + k % 26]) * 40, ipid=2 + k))
+            conns.append(c)
+    rng.shuffle(conns)
     inputs["frame"] += [f for c in conns for f in c]          # kept in order within a connection
     # ---- probes (client 10.99.0.1 is re-addressed by the harness for every round)
     cip, sip = (10, 99, 0, 1), (10, 98, 0, 1)
